@@ -42,10 +42,17 @@ func c12JSONClient(r *Run) {
 		c12SuccessShape(r, fn, "PostAndParse", do, "io.ReadAll(*)#0 || phi(io.ReadAll(*)#0|nil)")
 		if c := r.OneCall(fn, "PostAndParse:decode", "json.Unmarshal"); c != nil {
 			r.ExpectArg(c, "PostAndParse:decode.source", 0, "io.ReadAll(*)#0 || phi(io.ReadAll(*)#0|nil)")
-			r.ExpectArg(c, "PostAndParse:decode.target", 1, "&(p4)")
+			c12TargetIs(r, fn, c, "PostAndParse:decode.target", 1, "p4")
 		}
 	}
 	if fn := r.Fn(c12Retry); fn != nil {
+		if c13WrittenOut(fn) {
+			// the attempt is written out in the retry loop (no PostAndParse call): every clause of this block is
+			// decided on that shape by the retry rule sets of C13 that C12 runs as C12.R6 (retry:status=*,
+			// retry:default-error.*, retry:post:errors@*, retry:post:method-still-POST, retry:post:*)
+			r.Pass("PostAndParseWithRetry:status-table", r.FnPos(fn), "the attempt is written out in the loop: decided by C12.R6←C13.R1/R5 (retry:status=*, retry:post:*)")
+			return
+		}
 		st := c12Post + "(*)#0.StatusCode"
 		cases, err := r.D.ConstTable(fn, st, nil)
 		if err != nil {
@@ -140,6 +147,62 @@ func c12JSONClient(r *Run) {
 			}
 		}
 	}
+}
+
+// c12TargetIs decides "argument i of the call is the address of a variable that holds the value
+// `want` when the call runs": the address of that parameter itself (`&(want)`), or the address of a
+// local whose only store is one whole-value store of `want` that always executes before the call,
+// and whose address is used for nothing but that store, plain reads and this call (so the callee
+// sees, and fills, exactly what it would through the parameter).
+func c12TargetIs(r *Run, fn *ssa.Function, c ssa.CallInstruction, key string, i int, want string) bool {
+	args := CallArgs(c)
+	if i >= len(args) {
+		return r.Check(key, false, r.Where(c), fmt.Sprintf("call %s has no arg %d", CalleeOf(c), i))
+	}
+	got := r.D.D(args[i])
+	if got == "&("+want+")" {
+		return r.Check(key, true, r.Where(c), fmt.Sprintf("arg %d of %s = %s", i, CalleeOf(c), got))
+	}
+	a, isAlloc := args[i].(*ssa.Alloc)
+	if mi, ok := args[i].(*ssa.MakeInterface); ok && !isAlloc {
+		a, isAlloc = mi.X.(*ssa.Alloc)
+	}
+	why := "not the address of a local"
+	if isAlloc {
+		why = ""
+		sts := storesInto(fn, a)
+		switch {
+		case len(sts) != 1 || sts[0].Addr != ssa.Value(a):
+			why = fmt.Sprintf("the local is written %d times (expected one whole-value store)", len(sts))
+		case !executesBefore(sts[0], c):
+			why = "the store into the local does not always execute before the call"
+		case r.D.D(sts[0].Val) != want:
+			why = "the local holds " + r.D.D(sts[0].Val)
+		default:
+			for _, ref := range *a.Referrers() {
+				switch x := ref.(type) {
+				case *ssa.Store:
+					if x != sts[0] {
+						why = "the local's address is stored elsewhere"
+					}
+				case *ssa.UnOp, *ssa.DebugRef:
+				case *ssa.MakeInterface:
+					for _, ref2 := range *x.Referrers() {
+						if ref2 != ssa.Instruction(c) {
+							if _, dbg := ref2.(*ssa.DebugRef); !dbg {
+								why = "the local's address is handed on elsewhere"
+							}
+						}
+					}
+				default:
+					if ref != ssa.Instruction(c) {
+						why = "the local's address is handed on elsewhere"
+					}
+				}
+			}
+		}
+	}
+	return r.Check(key, why == "", r.Where(c), fmt.Sprintf("arg %d of %s = %s (expected &(%s), or the address of a local that only holds %s%s)", i, CalleeOf(c), got, want, want, map[bool]string{true: "", false: ": " + why}[why == ""]))
 }
 
 // c12SuccessNeeds200: a nil-error return of the retry loop needs a 200 answer of an attempt that did
